@@ -21,7 +21,7 @@ def new_world(plan, m):
     w.schema = plan['schema']
     w.plan = plan
     w.types = {c: {a['n']: a['t'] for a in w.schema['attrs'][c]} for c in w.schema['classes']}
-    w.genkind = plan.get('gen', 'int')
+    w.genkind = 'int' if isinstance(m.id_generator, xtuml.IntegerGenerator) else 'uuid'
     w.opt = plan.get('opt', {})
     w.refs = {c: set(k for a in w.schema['assocs'] if a['src'] == c for k in a['skeys']) for c in w.schema['classes']}
     w.step = 0
